@@ -22,7 +22,8 @@ Grammar (everything else is refused)
                  loop variable and assignments to locals only) | return e
                no while / break / continue / try / with / nested def / lambda / global
   expressions  int constants, None (as default of .get), names, self.buffindex, len(self), len(l), + - * on ints,
-               == != < <= > >= on ints, not / and / or on bools, isinstance(v, dict), l[i] (IndexError modelled),
+               == != < <= > >= on ints, not / and / or on bools, a if c else b (pure scalar branches),
+               isinstance(v, dict), l[i] (IndexError modelled),
                entry.get(k[, None]) on a stored record, [e for x in <list | self>], tuple(e for x in <list>),
                {k: v for k, v in d.items() if c}, {ke: ve for k, v in d.items()}, dict() / {}, d.copy(), d.items(),
                list(e), sorted(e, reverse=True), reversed(e), range(*key.indices(len(self))) (key narrowed to a slice),
@@ -240,6 +241,14 @@ class FnTr(object):
             for v in reversed(parts[:-1]):
                 out = "(%s %s %s)" % ("orb" if isinstance(e.op, ast.Or) else "andb", v, out)
             return out, "bool"
+        if isinstance(e, ast.IfExp):
+            c, tc = self.expr(e.test, env, binds)
+            n = len(binds)
+            a, ta = self.expr(e.body, env, binds)
+            b, tb = self.expr(e.orelse, env, binds)
+            if tc != "bool" or ta != tb or ta not in ("Z", "bool", "name") or len(binds) != n:
+                refuse(e, "conditional expression whose branches are not pure values of one scalar type")
+            return "(if %s then %s else %s)" % (c, a, b), ta
         if isinstance(e, ast.Subscript):
             if isinstance(e.slice, ast.Slice):
                 refuse(e, "slice expression")
